@@ -52,6 +52,22 @@ PROPS = {
         "assumptions": ["std::time::Instant as a point on the integer line; Instant::now() as a ghost-logged reading (R-state)",
                         "std's repeat_with / take / chain / once and either::Either by their documented meaning (stream model)"],
     },
+    "C17": {
+        "level": "other",
+        "explanation": "Narrow claim on one mechanism -- 'locate by hash then equality scan' -- decided by Verus contracts on the real text of XMapping::locate and XSet::locate (the structs and KeyLocation are the real definitions): the location of a key is Vacant exactly when the table has no bucket for the key's hash, and otherwise the outcome of scanning THAT bucket in order with the user's equality: Found at the first index whose key is equal, the error value of the first comparison that fails before that, Missing when none is equal; an error value or an out-of-range answer of the hash function is the result as an error value. Lookup therefore behaves as lookup in the association list of the key's hash class whatever else the table holds (collisions, other buckets, layout). NOT decided: that insertion / overwrite / removal / bulk update keep the table a finite map (try_put_located returns a reference into `&mut self`, outside Verus' dialect; removal and the set algebra are iterator towers over HashMap or written in the xray language), `len` maintenance, persistence of earlier versions, and consistency requirements on the user's hash / eq.",
+        "units": [
+            {"kind": "verus", "unit": "locate"},
+            {"kind": "verus", "unit": "slocate"},
+        ],
+        "unreached": [
+            "XMapping::{try_put_located, put, with_update}, XSet::with_update: insertion / overwrite and `len` maintenance (references into `&mut self`, HashMap::get_mut / entry)",
+            "removal paths (pop / discard / remove) and bulk operations: HashMap::from_iter over filter / map / chain towers in native closures",
+            "set algebra and mapping helpers written in the xray language (include.rs); derived eq / hash of mappings and sets",
+            "that every update returns a new collection and leaves earlier versions unchanged",
+        ],
+        "assumptions": ["the evaluator as a deterministic function `apply`; hash answers an Int, eq a Bool (type facts, C01)",
+                        "std HashMap<u64, _>::get by vstd's specification; slice::Iter / enumerate by the finite iterator model (trusted)"],
+    },
     "C06": {
         "level": "other",
         "explanation": "Narrow claim on the hand-written forwarding code. Almost all propagation in the crate is `?` on RuntimeResult and the early-return macros, which the type system makes impossible to skip. Decided here by Verus contracts on real text: the macros xraise!/forward_err! return the error they receive; the search-budget closure of XGenerator::iter lets the budget's violation win and otherwise returns the element unchanged; the element closures of the adaptors Aggregate, Filter, TakeWhile, SkipUntil hand on a violation of the incoming element and a violation or error value answered by the user callback, unchanged and never as None. Decided by enumeration: every function of the crate that inspects a Result's failure case other than by `?`/macros is listed with its classification (documented handler, library-error conversion, forwarding arm with pinned text), with the number of sites pinned. NOT decided: leftmost-error order of constructions (std collect semantics), that a user function yields an unused erroring argument, that collections never contain errors, the other adaptors (SuccessorsUntil, Map, Zip, Group, Windows, WithCount, Product).",
@@ -230,6 +246,12 @@ CLAIMS = {
         "text": "Narrow (three mechanisms): check_timeout is proved to answer Timeout exactly when the deadline is not after the clock reading it takes; with a search limit the search budget is proved to be a finite stream ending in the MaximumSearch violation; the digit loop is proved to terminate (|n| decreases) with its divisions defined.",
         "note": "Termination and the timeout test only; that every native loop draws on a limit, and the proportionality of the work, are listed as unreached.",
     },
+    "C17": {
+        "engine": "vx+verus",
+        "technique": "contract-based deductive verification: Verus contracts on the real text of XMapping::locate and XSet::locate (structs and KeyLocation extracted; std HashMap<u64,_> by vstd's specification; finite iterator model for the bucket scan)",
+        "text": "Narrow (one mechanism): the location of a key is proved to be Vacant exactly when there is no bucket for its hash and otherwise the outcome of the in-order equality scan of that bucket (first equal key: Found with its index; a failing comparison before that: its error value; none: Missing), for every table content, hash and equality function.",
+        "note": "Insertion, overwrite, removal, len maintenance, persistence of versions and the set algebra are listed as unreached; the evaluator is a deterministic function `apply`.",
+    },
     "C06": {
         "engine": "vx+verus",
         "technique": "contract-based deductive verification: Verus contracts on the real early-return macros and on the forwarding prefixes of generator adaptor closures (ghost log of the callback's answer); enumeration of every Result-inspection site",
@@ -293,7 +315,6 @@ _NA = {
     "C04": "property of XType::bind_in_assignment / common_type: same measured obstacle as C01",
     "C05": "property of CompilationScope::resolve_overload over XType/Bind: same measured obstacle as C01",
     "C12": "claim about the pest-generated parser on all texts; the number-literal code is an inline arm of a 370-line function over pest pairs",
-    "C17": "every operation evaluates the user's hash and equality through the evaluator (dyn Fn natives, out of reach), the containers use HashMap entry/closures outside Verus' dialect",
     "C20": "dates, fractions and JSON serialisation are written in the xray language (include.rs), for which no deductive verifier exists; the Rust remainder is delegated to serde_json / num-bigint",
 }
 NOT_APPLICABLE = dict(_NA)
